@@ -17,7 +17,7 @@ KINDS = [("scalar-empty", "''"), ('scalar-x', 'x'), ('seq-empty', '[]'), ('seq-x
          ('value-key-scalar', '{=: x}'), ('value-key-seq', '{=: [a, b]}'), ('value-key-map', '{=: {a: b}}')]
 
 CONTEXTS = ['root', 'seq-item', 'map-value', 'map-key', 'set-member', 'omap-value', 'pairs-value', 'aliased', 'merge', 'merge-list', 'nested',
-            'second-doc', 'omap-entry', 'pairs-entry', 'deep', 'key-and-value']
+            'second-doc', 'omap-entry', 'pairs-entry', 'deep', 'key-and-value', 'merge-overridden', 'mergelist-overridden', 'dup-key-overridden']
 
 
 def in_context(ctx, node):
@@ -54,6 +54,12 @@ def in_context(ctx, node):
         return 'a: [{b: [{c: %s}]}]\n' % node
     if ctx == 'key-and-value':
         return '{? %s : %s}\n' % (node, node)
+    if ctx == 'merge-overridden':      # an entry of an inline merge source that the mapping itself redefines
+        return '{<<: {a: %s, b: 1}, a: 2}\n' % node
+    if ctx == 'mergelist-overridden':
+        return '{<<: [{a: 0}, {a: %s}], c: 3}\n' % node
+    if ctx == 'dup-key-overridden':    # the first of two equal keys is overwritten: its value is still constructed
+        return '{a: %s, a: 2}\n' % node
     if ctx == 'nested-py':
         return '!!python/tuple [!!python/list [%s], !!python/dict {k: %s}]\n' % (node, node)
     raise ValueError(ctx)
